@@ -48,11 +48,11 @@ CHECKS = {
             "Trusted: the stub transport and the expected-request computation (URL rule in DESIGN.md C17); net/http itself.",
             "DESIGN.md section 5, C17"),
     "C18": ("fault_enumeration", "shared call-log monitor (stub interceptors + stub transports) against the model registration list over bounded-exhaustive histories, in child processes",
-            "Every history of length <= 4 (thorough 5) over a 15-letter alphabet of Add/Remove/Clear/SetHTTPClient/request operations, each followed by three probe requests (one with a failing interceptor), plus PRNG histories of length 12 with 0..6 interceptors and failing interceptors at every position: per request each registered interceptor exactly once in order, then exactly one transport call, header changes visible to the transport, abort + surfaced error on failure; a recursing chain kills the child and is attributed.",
+            "Every history of length <= 4 (thorough 5) over a 24-letter alphabet of Add/Remove/Clear/SetHTTPClient/request operations (incl. a second instance), each followed by three probe requests (one with a failing interceptor), plus PRNG histories of length 12 with 0..6 interceptors and failing interceptors at every position: per request each registered interceptor exactly once in order, then exactly one transport call, header changes visible to the transport, abort + surfaced error on failure; a recursing chain kills the child and is attributed.",
             "Trusted: the stub interceptors/transports and the list model; http.DefaultTransport is replaced by a stub during the run.",
             "DESIGN.md section 5, C18"),
     "C08": ("exploration", "recorded client-boundary histories checked by porcupine (FIFO/LIFO/BoundedFIFO models) + exactly-once/order checker + Go race detector (deciding)",
-            "Thousands of short concurrent histories (<= 24 operations, 1..4 x 1..4 processes, mixed roles, PRNG yields) over five wrapped implementations are checked for linearizability after a drain; long runs with up to 16+16 goroutines by the exactly-once / no-invention / per-producer-order checker; every call under recover; the same workloads in the -race build where any report inside the wrapper or the wrapped structure refutes the property.",
+            "Thousands of short concurrent histories (<= 24 operations, 1..4 x 1..4 processes, mixed roles, PRNG yields) over six wrapped implementations are checked for linearizability after a drain; long runs with up to 16+16 goroutines by the exactly-once / no-invention / per-producer-order checker; every call under recover; the same workloads in the -race build where any report inside the wrapper or the wrapped structure refutes the property.",
             "Trusted: porcupine v1.3.0 and the 40-line sequential models; the race detector sees only executed access pairs; schedules are sampled (OS scheduler + PRNG yields), not enumerated.",
             "DESIGN.md section 5, C08"),
     "C12": ("exploration", "in-effect monitors (atomic busy counter; plain-variable probe under the Go race detector) + per-sender order / exactly-once log checker",
